@@ -267,8 +267,10 @@ func (p *Packer) packWalkFn(root, src, dst string, tarW *tar.Writer, meta *Meta,
 				return fmt.Errorf("failed to read symlink %q: %w", path, err)
 			}
 
-			// Check if the symlink's target falls within the root.
-			if ok, err := p.validSymlink(root, path, target); ok {
+			// Check if the symlink's target falls within the root. The link is
+			// judged at the position it will have in the archive, which differs
+			// from its location on disk inside a dereferenced directory.
+			if ok, err := p.validSymlink(root, strings.Replace(path, src, dst, 1), target); ok {
 				// We can simply copy the link.
 				header.Typeflag = tar.TypeSymlink
 				header.Linkname = filepath.ToSlash(target)
